@@ -4,7 +4,7 @@ Each scenario is (label, scripts, cache_vals, cfg, expected) where expected is T
 (None: no direct expectation, correspondence only). `expected` is the property's own statement evaluated
 by the harness (the direct oracle): honest witnesses unlock, every single perturbation is rejected.
 """
-import hashlib, random, struct
+import hashlib, json, os, random, struct
 import tsh
 from tsh import F, T, SigningKey, nb, Pins
 
@@ -14,6 +14,7 @@ _AM.token_bytes = tsh._token_bytes
 
 import inspect as _inspect
 _RealT = T
+_DOC_ORDER = json.load(open(os.path.join(os.path.dirname(os.path.abspath(__file__)), 'doc_signatures.json')))
 
 
 class _ToolsProxy:
@@ -73,6 +74,15 @@ class _ToolsProxy:
                     b.arguments[k] = type(v)(conv(k, x) for x in v)
                 else:
                     b.arguments[k] = conv(k, v)
+            # positionally in the DOCUMENTED parameter order (docs.md of the pinned release, frozen in doc_signatures.json), or every
+            # argument by name: callers written against the documentation use either
+            doc = _DOC_ORDER.get(name)
+            if doc is not None and all(p_.kind == p_.POSITIONAL_OR_KEYWORD for p_ in sig.parameters.values()):
+                b.apply_defaults()
+                if sorted(doc) == sorted(b.arguments):
+                    if rng.random() < 0.5:
+                        return obj(*[b.arguments[p_] for p_ in doc])
+                    return obj(**dict(b.arguments))
             return obj(*b.args, **b.kwargs)
         return call
 
@@ -186,6 +196,10 @@ def c13(rng):
     out.append(('scripthash:honest', [bs(T.make_scripthash_witness(script)), bs(lock)], {}, cfg,
                 F.run_auth_scripts([script.bytes])))
     out.append(('scripthash:other-script', [bs(T.make_scripthash_witness(Script.from_src('true dup verify'))), bs(lock)], {}, cfg, False))
+    u1_ = Script.from_src('true'); T.make_scripthash_lock(u1_); u1_.commitment()
+    u2_ = u1_ + Script.from_src('push d5 push d5 equal verify')
+    out.append(('scripthash:honest (script summed from used Script objects)', [bs(T.make_scripthash_witness(u2_)), bs(T.make_scripthash_lock(u2_))], {}, cfg, True))
+    out.append(('scripthash:first summand only against the lock of the sum', [bs(T.make_scripthash_witness(u1_)), bs(T.make_scripthash_lock(u2_))], {}, cfg, False))
     # a key listed twice (a weighted vote): one holder still counts once per signature it can really give
     c_ = next(i for i in range(len(SEEDS)) if i not in (a, b))
     lkr = T.make_multisig_lock([PUBS[a], PUBS[a], PUBS[b]], 2, alh)
@@ -222,6 +236,21 @@ def c13(rng):
     out.append(('graftap:keyspend-other-key', [bs(T.make_graftap_witness_keyspend(SEEDS[b], sf, flh)), bs(lock)], sf, cfg, False))
     out.append(('graftap:scriptspend', [bs(T.make_graftap_witness_scriptspend(SEEDS[a], sur)), bs(lock)], sf, cfg, True))
     out.append(('graftap:scriptspend-other-key', [bs(T.make_graftap_witness_scriptspend(SEEDS[b], sur)), bs(lock)], sf, cfg, False))
+    # committed / surrogate scripts whose length sits on the one-byte / two-byte size boundaries of the PUSH forms the builders write
+    if rng.random() < 0.4:
+        for L in rng.sample([9, 254, 255, 256, 257, 258, 300, 511, 512, 513, 1000, 1024], 4):
+            if L >= 8:
+                body = bytes(rng.getrandbits(8) for _ in range(L - (6 if L - 5 < 256 else 7)))
+                sc = Script.from_bytes(gpush(body) + bytes([F.opcodes_inverse['OP_POP0'][0], F.opcodes_inverse['OP_TRUE'][0]]))
+                sc = Script.from_bytes(sc.bytes + bytes([F.opcodes_inverse['OP_TRUE'][0], F.opcodes_inverse['OP_VERIFY'][0]]) * ((L - len(sc.bytes)) // 2))
+            else:
+                sc = Script.from_bytes(bytes([F.opcodes_inverse['OP_TRUE'][0]]) * L)
+            nmL = ' (%d-byte script)' % len(sc.bytes)
+            lkh = T.make_scripthash_lock(sc)
+            out.append(('scripthash:honest' + nmL, [bs(T.make_scripthash_witness(sc)), bs(lkh)], {}, cfg, len(sc.bytes) <= 1024))
+            out.append(('graftroot:surrogate' + nmL, [bs(T.make_graftroot_witness_surrogate(SEEDS[a], sc)), bs(T.make_graftroot_lock(PUBS[a], alh))], sf, cfg, len(sc.bytes) <= 1024))
+            out.append(('graftroot:surrogate-signed-by-other' + nmL, [bs(T.make_graftroot_witness_surrogate(SEEDS[b], sc)), bs(T.make_graftroot_lock(PUBS[a], alh))], sf, cfg, False))
+            out.append(('graftap:scriptspend' + nmL, [bs(T.make_graftap_witness_scriptspend(SEEDS[a], sc)), bs(T.make_graftap_lock(PUBS[a], alh))], sf, cfg, len(sc.bytes) <= 1024))
     # cross-pairings of witnesses and locks across builders and keys: what each pair must give follows from the exact lock theorems
     # (e.g. a single-sig witness opens the key path of a graftroot lock of the same key), so the model decides
     locks = [('single_sig', T.make_single_sig_lock(PUBS[a], alh)), ('single_sig2', T.make_single_sig_lock2(PUBS[a], alh)),
@@ -493,6 +522,17 @@ def c16(rng):
                         {'timestamp': now + d_t}, cfgp_, within_, None))
             out.append(('run_script: between lock, per-call ts_threshold=%d, t=now+%d' % (thr_, d_t), [bs(T.make_timestamp_between_lock(now - 1, now + 1000, False))],
                         {'timestamp': now + d_t}, cfgp_, within_, None))
+    # the upper end: constraints beyond 2**31, 2**32 and 2**53 (where a float no longer holds every integer) up to 63 bits, with the slack
+    # check switched off per call so that the comparison itself decides
+    cfgz_ = tsh.Cfg(flags={'ts_threshold': 0})
+    for ts in (2**31 - 1, 2**31, 2**32, 2**53 + 1, 2**62 + 1, rng.getrandbits(62) | (1 << 61) | 1, rng.getrandbits(63) | 1):
+        for t in (ts - 1, ts, ts + 1):
+            out.append(('run_script: after lock ts=%d t=ts%+d, slack off' % (ts, t - ts), [bs(T.make_timestamp_after_lock(ts, False))], {'timestamp': t}, cfgz_, t >= ts, None))
+            out.append(('run_script: before lock ts=%d t=ts%+d, slack off' % (ts, t - ts), [bs(T.make_timestamp_before_lock(ts, False))], {'timestamp': t}, cfgz_, t < ts, None))
+        for t in (ts - 1, ts, ts + 4, ts + 5):
+            if ts + 5 < 2**63:
+                out.append(('run_script: between lock [ts,ts+5) ts=%d t=ts%+d, slack off' % (ts, t - ts), [bs(T.make_timestamp_between_lock(ts, ts + 5, False))],
+                            {'timestamp': t}, cfgz_, ts <= t < ts + 5, None))
     # the lower end of the timestamp domain (absolute values; t = 0 is a timestamp, not "none")
     cfg0 = tsh.Cfg()
     for ts in (0, 1, 2):
@@ -791,6 +831,19 @@ def c05(rng):
             for what, acc, ok_ in sweep:
                 out.append(('%s bit sweep: %s%s' % (nm, what, (' -- ACCEPTED with bit(s) %s flipped; witness(key path)=%s witness(script path)=%s lock=%s cache=%s'
                             % (acc[:8], wk0.hex(), ws0.hex(), lk0.hex(), tsh.cache_str(sf, False))) if acc else ''), None, None, None, ok_))
+        # a committed script put together from Script objects that were already used (committed to, locked, unlocked) on their own:
+        # the sum is a script of its own, with its own commitment
+        v1_ = Script.from_src('true')
+        lock_f(P, v1_, sigflags=flh); v1_.commitment(); T.make_taproot_witness_scriptspend(P, v1_)
+        v2_ = v1_ + Script.from_src('push d5 push d5 equal verify')
+        lk2_ = lock_f(P, v2_, sigflags=flh)
+        if native:
+            t2_ = F.clamp_scalar(hashlib.sha256(P + hashlib.sha256(v2_.bytes).digest()).digest())
+            out.append(('taproot root formula (script summed from used Script objects)', None, None, None,
+                        bs(lk2_) == bytes([3, 32]) + ed_add(P, nb.crypto_scalarmult_ed25519_base_noclamp(t2_)) + bytes([F.opcodes_inverse['OP_TAPROOT'][0], fl])))
+        out.append((nm + ':scriptspend of a script summed from used Script objects', [bs(T.make_taproot_witness_scriptspend(P, v2_)), bs(lk2_)], sf, cfg, True, None, ''))
+        out.append((nm + ':scriptspend with only the first summand of the committed script', [bs(T.make_taproot_witness_scriptspend(P, Script.from_src('true'))), bs(lk2_)], sf, cfg, False, None, ''))
+        out.append((nm + ':scriptspend with the (used) first summand object', [bs(T.make_taproot_witness_scriptspend(P, v1_)), bs(lk2_)], sf, cfg, False, None, ''))
         wk = T.make_taproot_witness_keyspend(SEEDS[a], sf, S, sigflags=flh)
         out.append((nm + ':keyspend', [bs(wk), bs(lock)], sf, cfg, True, None, ''))
         out.append((nm + ':keyspend-other-key', [bs(T.make_taproot_witness_keyspend(SEEDS[b], sf, S, sigflags=flh)), bs(lock)], sf, cfg, False, None, ''))
@@ -1238,8 +1291,9 @@ def c18(rng):
 
 
 # ---------------------------------------------------------------- builder bytes vs model/Builders.v
-def bld_cases(rng):
-    """(pid, model command, bytes produced by the real builder)"""
+def bld_cases(rng, only=None):
+    """(pid, model command, bytes produced by the real builder); only=pid builds the cases of that property alone, so that a builder
+    of another property that raises does not get in the way"""
     out = []
     now = Pins.now
     a, b = rng.sample(range(len(SEEDS)), 2)
@@ -1247,77 +1301,84 @@ def bld_cases(rng):
     fl = rng.choice([0, 1, 0x80, 0xff, rng.getrandbits(8)])
     flh = '%02x' % fl
     hx = lambda x: x.hex() if x else '-'
-    out.append(('C13', 'BLD single_sig_lock %s %s' % (hx(pk), flh), bs(T.make_single_sig_lock(pk, flh))))
     sf = fields(rng)
-    w = T.make_single_sig_witness(SEEDS[a], sf, '00')
-    sig = bs(w)[2:]
-    out.append(('C13', 'BLD single_sig_witness %s' % hx(sig), bs(w)))
-    h20 = hashlib.shake_256(pk).digest(20)
-    out.append(('C13', 'BLD single_sig_lock2 %s %s' % (hx(h20), flh), bs(T.make_single_sig_lock2(pk, flh))))
-    w2 = T.make_single_sig_witness2(SEEDS[a], sf, '00')
-    out.append(('C13', 'BLD single_sig_witness2 %s %s' % (hx(sig), hx(pk)), bs(w2)))
-    n = rng.randint(1, 4)
-    ks = rng.sample(range(len(SEEDS)), n)
-    m = rng.randint(1, n)
-    out.append(('C13', 'BLD multisig_lock %s %s %02x' % (','.join(hx(PUBS[k]) for k in ks), flh, m),
-                bs(T.make_multisig_lock([PUBS[k] for k in ks], m, flh))))
-    script = Script.from_src(rng.choice(LEAF_BODIES))
-    hs = rng.choice([16, 20, 26, 32])
-    out.append(('C13', 'BLD scripthash_lock %s %02x' % (hx(hashlib.shake_256(script.bytes).digest(hs)), hs),
-                bs(T.make_scripthash_lock(script, hs))))
-    out.append(('C13', 'BLD graftroot_lock %s %s' % (hx(pk), flh), bs(T.make_graftroot_lock(pk, flh))))
-    ts = now + rng.choice([-100, -1, 0, 30, 1000, 10**6])
-    c = F.int_to_bytes(ts)
-    for ver in (False, True):
-        out.append(('C16', 'BLD ts_after_lock %s %d' % (hx(c), ver), bs(T.make_timestamp_after_lock(ts, ver))))
-        out.append(('C16', 'BLD ts_before_lock %s %d' % (hx(c), ver), bs(T.make_timestamp_before_lock(ts, ver))))
-        ts2 = ts + rng.choice([1, 50, 10**5])
-        out.append(('C16', 'BLD ts_between_lock %s %s %d' % (hx(c), hx(F.int_to_bytes(ts2)), ver), bs(T.make_timestamp_between_lock(ts, ts2, ver))))
-    timeout = rng.choice([10, 3600, 86400])
-    cd = F.int_to_bytes(now + timeout)
-    out.append(('C15', 'BLD ptlc_lock %s %s %s %s' % (hx(pk), hx(cd), hx(pk2), flh), bs(T.make_ptlc_lock(pk, pk2, timeout=timeout, sigflags=flh))))
-    pre = bytes(rng.getrandbits(8) for _ in range(rng.randint(1, 40)))
-    d = hashlib.sha256(pre).digest()
-    out.append(('C15', 'BLD htlc_sha256_lock %s %s %s %s %s' % (hx(d), hx(pk), hx(cd), hx(pk2), flh),
-                bs(T.make_htlc_sha256_lock(pk, pk2, preimage=pre, timeout=timeout, sigflags=flh))))
-    k = rng.choice([16, 20, 32])
-    dk = hashlib.shake_256(pre).digest(k)
-    out.append(('C15', 'BLD htlc_shake256_lock %02x %s %s %s %s %s' % (k, hx(dk), hx(pk), hx(cd), hx(pk2), flh),
-                bs(T.make_htlc_shake256_lock(pk, pk2, preimage=pre, hash_size=k, timeout=timeout, sigflags=flh))))
-    hr, hf = hashlib.shake_256(pk).digest(20), hashlib.shake_256(pk2).digest(20)
-    out.append(('C15', 'BLD htlc2_sha256_lock %s %s %s %s %s' % (hx(d), hx(hr), hx(cd), hx(hf), flh),
-                bs(T.make_htlc2_sha256_lock(pk, pk2, preimage=pre, timeout=timeout, sigflags=flh))))
-    hr, hf = hashlib.shake_256(pk).digest(k), hashlib.shake_256(pk2).digest(k)
-    out.append(('C15', 'BLD htlc2_shake256_lock %02x %s %s %s %s %s' % (k, hx(dk), hx(hr), hx(cd), hx(hf), flh),
-                bs(T.make_htlc2_shake256_lock(pk, pk2, preimage=pre, hash_size=k, timeout=timeout, sigflags=flh))))
-    out.append(('C14', 'BLD delegate_key_lock %s %s' % (hx(pk), flh), bs(T.make_delegate_key_lock(pk, flh))))
-    cert = T.make_delegate_key_cert(SEEDS[a], pk2, now - 10, now + 10)
-    wd = T.make_delegate_key_witness(SEEDS[b], cert, sf)
-    out.append(('C14', 'BLD delegate_key_witness %s %s' % (hx(bs(wd)[2:66]), hx(cert.pack())), bs(wd)))
-    out.append(('C14', 'BLD delegate_key_chain_lock %s %s' % (hx(pk), flh), bs(T.make_delegate_key_chain_lock(pk, flh))))
-    chain_ids = rng.sample(range(len(SEEDS)), 3)
-    certs, signer = [], SEEDS[a]
-    for ci in chain_ids[:rng.randint(1, 3)]:
-        certs.insert(0, T.make_delegate_key_cert(signer, PUBS[ci], now - 10, now + 10))
-        signer = SEEDS[ci]
-    wc = T.make_delegate_key_chain_witness(signer, list(certs), sf)
-    sigc = bs(wc)[2:2 + bs(wc)[1]]
-    out.append(('C14', 'BLD delegate_key_chain_witness %s %s' % (hx(sigc), ' '.join(hx(c.pack()) for c in certs)), bs(wc)))
-    S = Script.from_src(rng.choice(LEAF_BODIES))
-    lock = T.make_taproot_lock(pk, S, sigflags=flh)
-    out.append(('C05', 'BLD taproot_lock %s %s' % (hx(bs(lock)[2:34]), flh), bs(lock)))
-    out.append(('C05', 'BLD nonnative_taproot_lock %s %s' % (hx(bs(lock)[2:34]), flh),
-                bs(T.make_nonnative_taproot_lock(pk, S, sigflags=flh))))
-    lv = [T.ScriptLeaf.from_src(leaf_src(i, 'true')) for i in range(rng.randint(2, 4))]
-    tree = rand_tree(rng, lv)
-    out.append(('C04', 'BLD merkle_lock %s' % hx(tree.root()), bs(tree.locking_script())))
-    tw = bytes(rng.getrandbits(8) for _ in range(32))
-    t = F.clamp_scalar(tw)
-    Tp = F.derive_point_from_scalar(t)
-    l1, l2, l3 = T.make_adapter_locks_prv(pk, tw, flh)
-    out.append(('C17', 'BLD adapter_check_lock %s %s %s' % (flh, hx(Tp), hx(pk)), bs(l1)))
-    out.append(('C17', 'BLD adapter_decrypt %s' % hx(t), bs(l2)))
-    out.append(('C17', 'BLD single_sig_lock %s %s' % (hx(pk), flh), bs(l3)))
+    if only in (None, 'C13'):
+        out.append(('C13', 'BLD single_sig_lock %s %s' % (hx(pk), flh), bs(T.make_single_sig_lock(pk, flh))))
+        w = T.make_single_sig_witness(SEEDS[a], sf, '00')
+        sig = bs(w)[2:]
+        out.append(('C13', 'BLD single_sig_witness %s' % hx(sig), bs(w)))
+        h20 = hashlib.shake_256(pk).digest(20)
+        out.append(('C13', 'BLD single_sig_lock2 %s %s' % (hx(h20), flh), bs(T.make_single_sig_lock2(pk, flh))))
+        w2 = T.make_single_sig_witness2(SEEDS[a], sf, '00')
+        out.append(('C13', 'BLD single_sig_witness2 %s %s' % (hx(sig), hx(pk)), bs(w2)))
+        n = rng.randint(1, 4)
+        ks = rng.sample(range(len(SEEDS)), n)
+        m = rng.randint(1, n)
+        out.append(('C13', 'BLD multisig_lock %s %s %02x' % (','.join(hx(PUBS[k]) for k in ks), flh, m),
+                    bs(T.make_multisig_lock([PUBS[k] for k in ks], m, flh))))
+        script = Script.from_src(rng.choice(LEAF_BODIES))
+        hs = rng.choice([16, 20, 26, 32])
+        out.append(('C13', 'BLD scripthash_lock %s %02x' % (hx(hashlib.shake_256(script.bytes).digest(hs)), hs),
+                    bs(T.make_scripthash_lock(script, hs))))
+        out.append(('C13', 'BLD graftroot_lock %s %s' % (hx(pk), flh), bs(T.make_graftroot_lock(pk, flh))))
+    if only in (None, 'C16'):
+        ts = now + rng.choice([-100, -1, 0, 30, 1000, 10**6])
+        c = F.int_to_bytes(ts)
+        for ver in (False, True):
+            out.append(('C16', 'BLD ts_after_lock %s %d' % (hx(c), ver), bs(T.make_timestamp_after_lock(ts, ver))))
+            out.append(('C16', 'BLD ts_before_lock %s %d' % (hx(c), ver), bs(T.make_timestamp_before_lock(ts, ver))))
+            ts2 = ts + rng.choice([1, 50, 10**5])
+            out.append(('C16', 'BLD ts_between_lock %s %s %d' % (hx(c), hx(F.int_to_bytes(ts2)), ver), bs(T.make_timestamp_between_lock(ts, ts2, ver))))
+    if only in (None, 'C15'):
+        timeout = rng.choice([10, 3600, 86400])
+        cd = F.int_to_bytes(now + timeout)
+        out.append(('C15', 'BLD ptlc_lock %s %s %s %s' % (hx(pk), hx(cd), hx(pk2), flh), bs(T.make_ptlc_lock(pk, pk2, timeout=timeout, sigflags=flh))))
+        pre = bytes(rng.getrandbits(8) for _ in range(rng.randint(1, 40)))
+        d = hashlib.sha256(pre).digest()
+        out.append(('C15', 'BLD htlc_sha256_lock %s %s %s %s %s' % (hx(d), hx(pk), hx(cd), hx(pk2), flh),
+                    bs(T.make_htlc_sha256_lock(pk, pk2, preimage=pre, timeout=timeout, sigflags=flh))))
+        k = rng.choice([16, 20, 32])
+        dk = hashlib.shake_256(pre).digest(k)
+        out.append(('C15', 'BLD htlc_shake256_lock %02x %s %s %s %s %s' % (k, hx(dk), hx(pk), hx(cd), hx(pk2), flh),
+                    bs(T.make_htlc_shake256_lock(pk, pk2, preimage=pre, hash_size=k, timeout=timeout, sigflags=flh))))
+        hr, hf = hashlib.shake_256(pk).digest(20), hashlib.shake_256(pk2).digest(20)
+        out.append(('C15', 'BLD htlc2_sha256_lock %s %s %s %s %s' % (hx(d), hx(hr), hx(cd), hx(hf), flh),
+                    bs(T.make_htlc2_sha256_lock(pk, pk2, preimage=pre, timeout=timeout, sigflags=flh))))
+        hr, hf = hashlib.shake_256(pk).digest(k), hashlib.shake_256(pk2).digest(k)
+        out.append(('C15', 'BLD htlc2_shake256_lock %02x %s %s %s %s %s' % (k, hx(dk), hx(hr), hx(cd), hx(hf), flh),
+                    bs(T.make_htlc2_shake256_lock(pk, pk2, preimage=pre, hash_size=k, timeout=timeout, sigflags=flh))))
+    if only in (None, 'C14'):
+        out.append(('C14', 'BLD delegate_key_lock %s %s' % (hx(pk), flh), bs(T.make_delegate_key_lock(pk, flh))))
+        cert = T.make_delegate_key_cert(SEEDS[a], pk2, now - 10, now + 10)
+        wd = T.make_delegate_key_witness(SEEDS[b], cert, sf)
+        out.append(('C14', 'BLD delegate_key_witness %s %s' % (hx(bs(wd)[2:66]), hx(cert.pack())), bs(wd)))
+        out.append(('C14', 'BLD delegate_key_chain_lock %s %s' % (hx(pk), flh), bs(T.make_delegate_key_chain_lock(pk, flh))))
+        chain_ids = rng.sample(range(len(SEEDS)), 3)
+        certs, signer = [], SEEDS[a]
+        for ci in chain_ids[:rng.randint(1, 3)]:
+            certs.insert(0, T.make_delegate_key_cert(signer, PUBS[ci], now - 10, now + 10))
+            signer = SEEDS[ci]
+        wc = T.make_delegate_key_chain_witness(signer, list(certs), sf)
+        sigc = bs(wc)[2:2 + bs(wc)[1]]
+        out.append(('C14', 'BLD delegate_key_chain_witness %s %s' % (hx(sigc), ' '.join(hx(c.pack()) for c in certs)), bs(wc)))
+    if only in (None, 'C05'):
+        S = Script.from_src(rng.choice(LEAF_BODIES))
+        lock = T.make_taproot_lock(pk, S, sigflags=flh)
+        out.append(('C05', 'BLD taproot_lock %s %s' % (hx(bs(lock)[2:34]), flh), bs(lock)))
+        out.append(('C05', 'BLD nonnative_taproot_lock %s %s' % (hx(bs(lock)[2:34]), flh),
+                    bs(T.make_nonnative_taproot_lock(pk, S, sigflags=flh))))
+    if only in (None, 'C04'):
+        lv = [T.ScriptLeaf.from_src(leaf_src(i, 'true')) for i in range(rng.randint(2, 4))]
+        tree = rand_tree(rng, lv)
+        out.append(('C04', 'BLD merkle_lock %s' % hx(tree.root()), bs(tree.locking_script())))
+    if only in (None, 'C17'):
+        tw = bytes(rng.getrandbits(8) for _ in range(32))
+        t = F.clamp_scalar(tw)
+        Tp = F.derive_point_from_scalar(t)
+        l1, l2, l3 = T.make_adapter_locks_prv(pk, tw, flh)
+        out.append(('C17', 'BLD adapter_check_lock %s %s %s' % (flh, hx(Tp), hx(pk)), bs(l1)))
+        out.append(('C17', 'BLD adapter_decrypt %s' % hx(t), bs(l2)))
+        out.append(('C17', 'BLD single_sig_lock %s %s' % (hx(pk), flh), bs(l3)))
     return out
 
 
